@@ -65,7 +65,7 @@ CONSTANTS Servers,     \* sequence of server addresses, the order of --servers
           Deltas,      \* amounts of time that may pass in one Advance
           OtherKinds,  \* subset of {"udp", "tcpx", "arpreq", "arpcli"}
           Strict,      \* TRUE: the documented intent where the code deviates (ServerCrash)
-          D            \* export depth
+          D            \* export depth (0: no history is kept - model checking and trace validation)
 
 VARIABLES up, now, timer, rr, probes, live, mem, flows, leaked, sent,
           last,      \* observation of the last action
@@ -150,7 +150,7 @@ Obs(pin, msgs, em, arp, cands, exc) ==
 NoObs == [a |-> "Init", via |-> "Init", args |-> [x |-> 0], exp |-> [x |-> 0]]
 Log(a, via, args, exp) ==
   /\ last' = [a |-> a, via |-> via, args |-> args, exp |-> exp]
-  /\ hist' = Append(hist, [a |-> a, via |-> via, args |-> args, exp |-> exp])
+  /\ hist' = IF D = 0 THEN hist ELSE Append(hist, [a |-> a, via |-> via, args |-> args, exp |-> exp])
 
 ----------------------------------------------------------------------------
 Init == /\ up = FALSE /\ now = 0 /\ timer = 0 /\ rr = Servers
